@@ -119,7 +119,7 @@ def inject(scratch_repo, modules, known_ids, intree_macros=False, grammar_deviat
         fpmod = "use crate::specification::*;\npub(crate) fn fingerprint(_file: &A2lFile) -> Vec<u8> { Vec::new() }\npub(crate) const VERIF_FP_STUB: bool = true;\n"
         pre.append("dslgen failed (%s): stub every-element document and fingerprint module" % str(e)[:200])
     # C04: single deviations from the frozen reference grammar (only built when a property asks for them: large)
-    devmod = ("pub(crate) const N_DEV: u32 = 0;\npub(crate) fn dev_doc(_k: u32) -> (&'static str, &'static str, &'static str, bool) { (\"\", \"\", \"\", false) }\n"
+    devmod = ("pub(crate) const N_DEV: u32 = 0;\npub(crate) fn dev_doc(_k: u32) -> (&'static str, &'static str, &'static str, bool) { (\"\", \"\", \"\", false) }\npub(crate) const DEV_RECOVERABLE: &[u32] = &[];\npub(crate) const DEV_END_TAG: &[u32] = &[];\n"
               "pub(crate) const N_GATED: u32 = 0;\npub(crate) fn gated_doc(_k: u32) -> (&'static str, u32, u32, &'static str) { (\"\", 0, 0, \"\") }\n")
     if grammar_deviations:
         ref = open(os.path.join(C.VERIF, "reference", "a2l_grammar_dsl.txt")).read()
